@@ -6,7 +6,7 @@ TB = ("Trusted base: Python's ast / clang 14's parser, the checker's own CFG, "
       "/verif/spec reference tables. ")
 
 # properties whose check is finished and registered in MANIFEST.json
-READY = ["C02", "C03", "C05", "C09", "C12", "C13", "C14", "C15", "C18"]
+READY = ["C02", "C03", "C05", "C06", "C08", "C09", "C11", "C12", "C13", "C14", "C15", "C18", "C20"]
 
 CLAIMS = {
     "C02": {
